@@ -118,7 +118,9 @@ def sparseP (b : Nat) : P String := do
 
 /-- `svs`: a script of member calls -/
 def scriptP : P String := do
-  let b ← nat
+  let b0 ← nat
+  -- 32 / 322: the same containers with the 32-bit index type (`IT_ = unsigned int`), scalar / blocks of 2
+  let b := if b0 == 32 then 0 else if b0 == 322 then 2 else b0
   if b > 3 then throw "unsupported block size"
   let w := max b 1
   let size ← nat
